@@ -9,6 +9,14 @@ package sqlite
 // store's usage-changing operations, records every operation with a snapshot of
 // Contracts()/V2Contracts()/Metrics() for the Coq model (Contracts/Model.v) and evaluates the
 // properties' own predicates (monitors).
+//
+// A block may carry several changes of one contract, in the combinations consensus allows: a v1
+// formation whose created element carries the revisions confirmed in the same block (evForm with
+// new = k >= 1), a v2 contract revised and resolved (renewal / storage proof / expiration) in one
+// block (an evRev and a resolution event of the same contract).  When vfBuildHook is set
+// (verif_c01_hook_test.go) every well-formed block reaches the store the way it does in
+// production: its changes are merged into one element diff per contract id, as core's MidState
+// does, and handed to the real contracts.buildContractState, whose result goes to the store.
 
 import (
 	"fmt"
@@ -19,6 +27,7 @@ import (
 	"testing"
 	"time"
 
+	"go.sia.tech/core/consensus"
 	rhp3 "go.sia.tech/core/rhp/v3"
 	proto4 "go.sia.tech/core/rhp/v4"
 	"go.sia.tech/core/types"
@@ -30,6 +39,10 @@ import (
 )
 
 const vfHeader = "From HostdBase Require Import Base.\nFrom HostdContracts Require Import Model.\nLocal Open Scope N_scope."
+
+// vfBuildHook is the real contracts.buildContractState when verif_c01_hook_test.go is part of the
+// build, nil otherwise (the driver then feeds the StateChanges it expects directly).
+var vfBuildHook func(tx contracts.UpdateStateTx, fces []consensus.FileContractElementDiff, v2Fces []consensus.V2FileContractElementDiff, revert bool) (contracts.StateChanges, error)
 
 func TestVerifC01(t *testing.T) { vfRun(t, "C01") }
 func TestVerifC05(t *testing.T) { vfRun(t, "C05") }
@@ -63,7 +76,7 @@ type vfContract struct {
 type vfEvent struct {
 	kind     int
 	c        *vfContract
-	old, new uint64 // revision numbers (evRev), new = revision number of the element (v2 evForm)
+	old, new uint64 // revision numbers (evRev); evForm: new = revision number of the created element (v1: the revisions folded into the formation, 0 = none)
 }
 
 type vfBlock struct {
@@ -82,11 +95,13 @@ func (b *vfBlock) index() types.ChainIndex {
 
 // chain-derived view of one contract (reference fold used by the generator only)
 type vfRef struct {
-	formed   bool
-	lastRev  uint64
-	resolved int // 0 none, 1 successful, 2 failed, 3 renewed
-	formIdx  types.ChainIndex
-	resIdx   types.ChainIndex
+	formed     bool
+	lastRev    uint64
+	resolved   int // 0 none, 1 successful, 2 failed, 3 renewed
+	formIdx    types.ChainIndex
+	resIdx     types.ChainIndex
+	folded     bool // v1: lastRev is the revision the formation carried (k >= 1)
+	resWithRev bool // resolved in a block that also revised the contract
 }
 
 func vfFold(chain []*vfBlock) map[*vfContract]*vfRef {
@@ -98,6 +113,12 @@ func vfFold(chain []*vfBlock) map[*vfContract]*vfRef {
 		return m[c]
 	}
 	for _, b := range chain {
+		revised := map[*vfContract]bool{}
+		for _, e := range b.events {
+			if e.kind == evRev {
+				revised[e.c] = true
+			}
+		}
 		for _, e := range b.events {
 			r := get(e.c)
 			switch e.kind {
@@ -105,17 +126,22 @@ func vfFold(chain []*vfBlock) map[*vfContract]*vfRef {
 				r.formed = true
 				r.lastRev = e.new
 				r.formIdx = b.index()
+				r.folded = !e.c.v2 && e.new > 0
 			case evRev:
 				r.lastRev = e.new
+				r.folded = false
 			case evProof, evMissOK:
 				r.resolved = 1
 				r.resIdx = b.index()
+				r.resWithRev = revised[e.c]
 			case evFail:
 				r.resolved = 2
 				r.resIdx = b.index()
+				r.resWithRev = revised[e.c]
 			case evRenew:
 				r.resolved = 3
 				r.resIdx = b.index()
+				r.resWithRev = revised[e.c]
 			}
 		}
 	}
@@ -133,18 +159,18 @@ type vfWorld struct {
 	dir  string
 	id   int
 
-	buffer    uint64
-	v1, v2    []*vfContract
-	chain     []*vfBlock // current best chain, chain[i].height == i+1
-	nextBid   int
-	applied   int
-	orphans   [][]*vfBlock // reverted branches that may be re-applied (crossing the same block again)
-	wellFormed bool        // false once an ill-formed update was committed: C01 monitors off
-	replay    []func(db *Store) error // non-chain operations, for the best-chain replay
-	tipSnaps  map[int]map[string]string // block id -> chain columns right after that block was applied
+	buffer     uint64
+	v1, v2     []*vfContract
+	chain      []*vfBlock // current best chain, chain[i].height == i+1
+	nextBid    int
+	applied    int
+	orphans    [][]*vfBlock              // reverted branches that may be re-applied (crossing the same block again)
+	wellFormed bool                      // false once an ill-formed update was committed: C01 monitors off
+	replay     []func(db *Store) error   // non-chain operations, for the best-chain replay
+	tipSnaps   map[int]map[string]string // block id -> chain columns right after that block was applied
 	nontrivial bool
-	visited   map[string]bool
-	prevM     string
+	visited    map[string]bool
+	prevM      string
 }
 
 func vfCur(v int64) types.Currency {
@@ -239,7 +265,8 @@ var vfSt1 = map[contracts.ContractStatus]string{contracts.ContractStatusPending:
 var vfSt2 = map[contracts.V2ContractStatus]string{contracts.V2ContractStatusPending: "P2", contracts.V2ContractStatusRejected: "R2",
 	contracts.V2ContractStatusActive: "A2", contracts.V2ContractStatusRenewed: "N2", contracts.V2ContractStatusSuccessful: "S2", contracts.V2ContractStatusFailed: "F2"}
 
-// changes renders the StateChanges of a block as a Model.changes term and builds the real value.
+// changes renders the StateChanges of a block as a Model.changes term and builds the real value
+// (what buildContractState is to produce for the block's element diffs).
 func (w *vfWorld) changes(b *vfBlock, revert bool) (string, contracts.StateChanges) {
 	var sc contracts.StateChanges
 	var conf1, rev1, succ1, fail1, conf2, rev2, succ2, ren2, fail2 []string
@@ -251,8 +278,15 @@ func (w *vfWorld) changes(b *vfBlock, revert bool) (string, contracts.StateChang
 		if !e.c.v2 {
 			switch e.kind {
 			case evForm:
-				sc.Confirmed = append(sc.Confirmed, types.FileContractElement{ID: e.c.id, FileContract: types.FileContract{RevisionNumber: 0}})
+				// the created element is confirmed and is the confirmed revision (reverting: back to 0)
+				k := e.new
+				if revert {
+					k = 0
+				}
+				sc.Confirmed = append(sc.Confirmed, types.FileContractElement{ID: e.c.id, FileContract: types.FileContract{RevisionNumber: e.new}})
+				sc.Revised = append(sc.Revised, contracts.RevisedContract{ID: e.c.id, FileContract: types.FileContract{RevisionNumber: k}})
 				conf1 = append(conf1, fmt.Sprint(e.c.num))
+				rev1 = append(rev1, fmt.Sprintf("(%d, %d)", e.c.num, k))
 			case evRev:
 				sc.Revised = append(sc.Revised, contracts.RevisedContract{ID: e.c.id, FileContract: types.FileContract{RevisionNumber: n}})
 				rev1 = append(rev1, fmt.Sprintf("(%d, %d)", e.c.num, n))
@@ -287,6 +321,104 @@ func (w *vfWorld) changes(b *vfBlock, revert bool) (string, contracts.StateChang
 	term := fmt.Sprintf("(mkCh %s %s %s %s %s %s %s %s %s)", coqList(conf1), coqList(rev1), coqList(succ1), coqList(fail1),
 		coqList(conf2), coqList(rev2), coqList(succ2), coqList(ren2), coqList(fail2))
 	return term, sc
+}
+
+// diffs builds the element diffs of a block the way core's MidState does: ONE diff per contract
+// id, into which every change of the contract in the block is merged (a created element carries
+// the revisions confirmed with it; a revised element may be resolved as well).
+func (w *vfWorld) diffs(b *vfBlock) (fces []consensus.FileContractElementDiff, v2Fces []consensus.V2FileContractElementDiff) {
+	pos1, pos2 := map[*vfContract]int{}, map[*vfContract]int{}
+	payout := func(v uint64) []types.SiacoinOutput {
+		return []types.SiacoinOutput{{}, {Value: types.NewCurrency64(v)}}
+	}
+	v1fc := func(rev uint64) types.FileContract {
+		return types.FileContract{RevisionNumber: rev, ValidProofOutputs: payout(10), MissedProofOutputs: payout(10)}
+	}
+	for pass := 0; pass < 2; pass++ { // creation and revision first: a resolution keeps the element they set
+		for _, e := range b.events {
+			if (e.kind == evForm || e.kind == evRev) != (pass == 0) {
+				continue
+			}
+			if !e.c.v2 {
+				i, ok := pos1[e.c]
+				if !ok {
+					fces = append(fces, consensus.FileContractElementDiff{FileContractElement: types.FileContractElement{ID: e.c.id, FileContract: v1fc(0)}})
+					i = len(fces) - 1
+					pos1[e.c] = i
+				}
+				d := &fces[i]
+				switch e.kind {
+				case evForm:
+					d.Created = true
+					d.FileContractElement.FileContract = v1fc(e.new)
+				case evRev:
+					d.FileContractElement.FileContract = v1fc(e.old)
+					rev := v1fc(e.new)
+					d.Revision = &rev
+				case evProof:
+					d.Resolved, d.Valid = true, true
+				case evMissOK:
+					d.Resolved = true
+				case evFail:
+					d.Resolved = true
+					d.FileContractElement.FileContract.MissedProofOutputs = payout(5)
+				}
+			} else {
+				i, ok := pos2[e.c]
+				if !ok {
+					v2Fces = append(v2Fces, consensus.V2FileContractElementDiff{V2FileContractElement: types.V2FileContractElement{ID: e.c.id,
+						StateElement: types.StateElement{LeafIndex: uint64(e.c.num)}, V2FileContract: e.c.v2fc(0)}})
+					i = len(v2Fces) - 1
+					pos2[e.c] = i
+				}
+				d := &v2Fces[i]
+				switch e.kind {
+				case evForm:
+					d.Created = true
+					d.V2FileContractElement.V2FileContract = e.c.v2fc(e.new)
+				case evRev:
+					d.V2FileContractElement.V2FileContract = e.c.v2fc(e.old)
+					rev := e.c.v2fc(e.new)
+					d.Revision = &rev
+				case evProof:
+					d.Resolution = &types.V2StorageProof{}
+				case evRenew:
+					d.Resolution = &types.V2FileContractRenewal{}
+				case evMissOK:
+					d.Resolution = &types.V2FileContractExpiration{}
+				case evFail:
+					d.Resolution = &types.V2FileContractExpiration{}
+					d.V2FileContractElement.V2FileContract.HostOutput.Value = types.NewCurrency64(10)
+					d.V2FileContractElement.V2FileContract.MissedHostValue = types.NewCurrency64(5)
+				}
+			}
+		}
+	}
+	return
+}
+
+// sameBlock lists the contracts of a block with several changes, for the histogram
+func vfSameBlock(b *vfBlock) (out []string) {
+	var revised []*vfContract
+	for _, e := range b.events {
+		if e.kind == evRev {
+			revised = append(revised, e.c)
+		}
+		if e.kind == evForm && !e.c.v2 && e.new > 0 {
+			out = append(out, "v1:form+revision")
+		}
+	}
+	for _, e := range b.events {
+		if e.kind == evForm || e.kind == evRev {
+			continue
+		}
+		for _, c := range revised {
+			if c == e.c {
+				out = append(out, vfVer(c)+":revise+"+vfEvName[e.kind])
+			}
+		}
+	}
+	return
 }
 
 // ---------------------------------------------------------------- snapshot
@@ -788,14 +920,27 @@ type vfApply struct {
 func (w *vfWorld) update(reverts []*vfBlock, applies []*vfBlock, wellFormed bool) bool {
 	var rt, at []string
 	type rv struct {
-		idx types.ChainIndex
-		sc  contracts.StateChanges
+		idx    types.ChainIndex
+		sc     contracts.StateChanges
+		fces   []consensus.FileContractElementDiff
+		v2Fces []consensus.V2FileContractElementDiff
 	}
 	var rvs, aps []rv
+	// a well-formed block goes through the real buildContractState when it is linked in; an
+	// ill-formed one (events of unknown contracts, ...) is fed to the store directly: the relevance
+	// filter would drop what these updates are there to exercise
+	useBuild := vfBuildHook != nil && wellFormed
+	build := func(tx index.UpdateTx, r rv, revert bool) (contracts.StateChanges, error) {
+		if !useBuild {
+			return r.sc, nil
+		}
+		return vfBuildHook(tx, r.fces, r.v2Fces, revert)
+	}
 	for _, b := range reverts {
 		term, sc := w.changes(b, true)
 		rt = append(rt, fmt.Sprintf("(%s, %s)", vfIdx(b.index()), term))
-		rvs = append(rvs, rv{b.index(), sc})
+		fces, v2Fces := w.diffs(b)
+		rvs = append(rvs, rv{b.index(), sc, fces, v2Fces})
 	}
 	for _, b := range applies {
 		term, sc := w.changes(b, false)
@@ -804,7 +949,8 @@ func (w *vfWorld) update(reverts []*vfBlock, applies []*vfBlock, wellFormed bool
 			rj = fmt.Sprintf("(Some %d)", b.height-w.buffer)
 		}
 		at = append(at, fmt.Sprintf("(%s, %s, %s)", vfIdx(b.index()), term, rj))
-		aps = append(aps, rv{b.index(), sc})
+		fces, v2Fces := w.diffs(b)
+		aps = append(aps, rv{b.index(), sc, fces, v2Fces})
 	}
 	buffer := w.buffer
 	// the relevance filter buildContractState applies to every element diff before a change
@@ -844,12 +990,16 @@ func (w *vfWorld) update(reverts []*vfBlock, applies []*vfBlock, wellFormed bool
 				}
 			}
 			for _, r := range rvs {
-				if err := tx.RevertContracts(r.idx, r.sc); err != nil {
+				if sc, err := build(tx, r, true); err != nil {
+					return fmt.Errorf("build revert %v: %w", r.idx, err)
+				} else if err := tx.RevertContracts(r.idx, sc); err != nil {
 					return fmt.Errorf("revert %v: %w", r.idx, err)
 				}
 			}
 			for _, a := range aps {
-				if err := tx.ApplyContracts(a.idx, a.sc); err != nil {
+				if sc, err := build(tx, a, false); err != nil {
+					return fmt.Errorf("build apply %v: %w", a.idx, err)
+				} else if err := tx.ApplyContracts(a.idx, sc); err != nil {
 					return fmt.Errorf("apply %v: %w", a.idx, err)
 				}
 				if a.idx.Height >= buffer {
@@ -865,14 +1015,21 @@ func (w *vfWorld) update(reverts []*vfBlock, applies []*vfBlock, wellFormed bool
 		})
 	}
 	w.em.Count(fmt.Sprintf("batch:reverts=%d,applies=%d", vfCap(len(reverts), 4), vfCap(len(applies), 4)))
+	w.em.Count(fmt.Sprintf("batch:through-buildContractState=%v", useBuild))
 	for _, b := range reverts {
 		for _, e := range b.events {
 			w.em.Count("event:revert:" + vfVer(e.c) + ":" + vfEvName[e.kind])
+		}
+		for _, k := range vfSameBlock(b) {
+			w.em.Count("same-block:revert:" + k)
 		}
 	}
 	for _, b := range applies {
 		for _, e := range b.events {
 			w.em.Count("event:apply:" + vfVer(e.c) + ":" + vfEvName[e.kind])
+		}
+		for _, k := range vfSameBlock(b) {
+			w.em.Count("same-block:apply:" + k)
 		}
 	}
 	ok := w.do("chain", fmt.Sprintf("Chain %s %s", coqList(rt), coqList(at)), wellFormed, fn)
@@ -936,6 +1093,10 @@ func (w *vfWorld) checkShadow(when string) {
 			w.em.Monitor("v1-status-differs-from-chain", det)
 		case got.ResolutionHeight != wantRes:
 			w.em.Monitor("v1-resolution-height-differs-from-chain", det)
+		case got.RevisionConfirmed != (c.rev == r.lastRev) && r.folded && c.rev == r.lastRev:
+			// the host's latest revision was confirmed together with the formation (core folds it
+			// into the created element) and is reported unconfirmed: it would be broadcast again
+			w.em.Monitor("v1-folded-revision-not-confirmed", det)
 		case got.RevisionConfirmed != (c.rev == r.lastRev):
 			w.em.Monitor("v1-revision-confirmed-differs-from-chain", det)
 		}
@@ -962,6 +1123,9 @@ func (w *vfWorld) checkShadow(when string) {
 		switch {
 		case got.FormationIndex != r.formIdx:
 			w.em.Monitor("v2-formation-index-differs-from-chain", det)
+		case got.Status != want && r.resWithRev && got.Status == contracts.V2ContractStatusActive:
+			// revised and resolved in one block: the resolution did not reach the store
+			w.em.Monitor("v2-same-block-resolution-lost", det)
 		case got.Status != want && !(want == contracts.V2ContractStatusPending && got.Status == contracts.V2ContractStatusRejected):
 			w.em.Monitor("v2-status-differs-from-chain", det)
 		case got.ResolutionIndex != r.resIdx:
@@ -1065,6 +1229,10 @@ func (w *vfWorld) newBlock(chain []*vfBlock, density int) *vfBlock {
 				n := uint64(0)
 				if c.v2 {
 					n = uint64(w.rng.Intn(2)) // revision number of the confirmed element
+				} else if k := w.rng.Intn(6); k < 2 {
+					n = c.rev // the host's latest revision is confirmed together with the formation
+				} else if k == 2 {
+					n = uint64(1 + w.rng.Intn(3)) // some revision is folded into the formation
 				}
 				b.events = append(b.events, vfEvent{kind: evForm, c: c, new: n})
 			case r.resolved == 0:
@@ -1075,6 +1243,12 @@ func (w *vfWorld) newBlock(chain []*vfBlock, density int) *vfBlock {
 						n = c.rev // the host's latest revision gets confirmed
 					}
 					b.events = append(b.events, vfEvent{kind: evRev, c: c, old: r.lastRev, new: n})
+					if c.v2 && w.rng.Intn(3) == 0 {
+						// ... and resolved in the same block (a revision and a renewal / storage
+						// proof in different transactions; expiration for completeness)
+						res := []int{evRenew, evRenew, evProof, evProof, evMissOK, evFail}[w.rng.Intn(6)]
+						b.events = append(b.events, vfEvent{kind: res, c: c})
+					}
 				case k < 7:
 					b.events = append(b.events, vfEvent{kind: evProof, c: c})
 				case k < 8:
@@ -1225,6 +1399,66 @@ func (w *vfWorld) rescan() {
 	if w.mode == "C01" && w.wellFormed && len(chain) > 0 {
 		w.tipSnaps[chain[len(chain)-1].bid] = vfChainCols(w.t, w.db)
 	}
+}
+
+// rescanOnto: ResetChainState, then a DIFFERENT chain is processed from its first block (the
+// consensus database was replaced by one that lacks blocks the store has processed — the case
+// index.Manager resets for).  ResetChainState keeps the chain columns of the contracts and the
+// "skipping rescan state transition" branches keep them during the rescan, so what the store
+// reports afterwards is not a function of the new best chain: a recorded finding of C01
+// (rescan-onto-different-chain-keeps-old-chain-state), stated here with the shadow fold of the new
+// chain.  C05 is not affected (the metrics stay equal to the recomputation from the rows) and
+// raises nothing in this case.
+func (w *vfWorld) rescanOnto(chain []*vfBlock) {
+	fn := func(db *Store) error { return db.ResetChainState() }
+	if !w.do("reset", "Reset", true, fn) {
+		return
+	}
+	w.em.Count("rescan-onto-different-chain")
+	saved := w.mode
+	if w.mode == "C01" {
+		w.mode = "C01-rescan"
+	}
+	ok := w.update(nil, chain, true)
+	w.mode = saved
+	if !ok {
+		if w.mode == "C01" {
+			w.em.Monitor("rescan-update-fails", "rescan onto a different chain")
+		}
+		w.wellFormed = false
+		return
+	}
+	w.chain = append([]*vfBlock(nil), chain...)
+	w.applied += len(chain)
+	w.nontrivial = true
+	if w.mode == "C01" && w.wellFormed {
+		ref := vfFold(w.chain)
+		for _, c := range append(append([]*vfContract(nil), w.v1...), w.v2...) {
+			formed := ref[c] != nil && ref[c].formed
+			var gotFormed bool
+			var status string
+			if !c.v2 {
+				got, err := w.db.Contract(c.id)
+				if err != nil {
+					w.t.Fatal(err)
+				}
+				gotFormed, status = got.FormationConfirmed, vfSt1[got.Status]
+			} else {
+				got, err := w.db.V2Contract(c.id)
+				if err != nil {
+					w.t.Fatal(err)
+				}
+				gotFormed, status = got.FormationIndex != (types.ChainIndex{}), vfSt2[got.Status]
+			}
+			if gotFormed != formed {
+				w.em.Monitor("rescan-onto-different-chain-keeps-old-chain-state",
+					fmt.Sprintf("%s contract %d: after ResetChainState and a rescan of a chain that does not contain its formation the store reports status %s, formation confirmed %v", vfVer(c), c.num, status, gotFormed))
+				break
+			}
+		}
+	}
+	// the store no longer follows the shadow chain: the remaining C01 monitors are off for this case
+	w.wellFormed = false
 }
 
 // illFormed commits or attempts an update that no chain can produce (events for unknown or
@@ -1619,6 +1853,85 @@ var vfDirected = []func(w *vfWorld){
 		w.debit(1, false)
 		w.debit(2, false)
 	},
+	func(w *vfWorld) { // 10: v1 formation carrying the host's latest revision (folded by core), crossed twice, rescan
+		w.buffer = 3
+		w.push()
+		c := w.addContract(false, w.tipHeight(), vfSmall)
+		w.revise(c, vfSmall)
+		w.push(vfEvent{kind: evForm, c: c, new: c.rev}) // the revision is confirmed with the formation
+		w.pop(1)                                        // ... and unconfirmed again (revision 0)
+		w.push()
+		b1 := w.block(vfEvent{kind: evForm, c: c, new: c.rev})
+		k := c.rev
+		w.revise(c, vfSmall)
+		b2 := &vfBlock{height: b1.height + 1, bid: b1.bid + 1, events: []vfEvent{{kind: evRev, c: c, old: k, new: c.rev}}}
+		w.nextBid++
+		for i := 0; i < 2; i++ {
+			if w.update(nil, []*vfBlock{b1, b2}, true) {
+				w.commit(nil, []*vfBlock{b1, b2})
+			}
+			if w.update([]*vfBlock{b2, b1}, nil, true) {
+				w.commit([]*vfBlock{b2, b1}, nil)
+			}
+		}
+		if w.update(nil, []*vfBlock{b1}, true) {
+			w.commit(nil, []*vfBlock{b1})
+		}
+		w.rescan()
+		w.push(vfEvent{kind: evProof, c: c})
+		w.pop(2)
+	},
+	vfDirectedSameBlock(evRenew), // 11: v2 revised and renewed in one block
+	vfDirectedSameBlock(evProof), // 12: v2 revised and proven in one block
+	vfDirectedSameBlock(evFail),  // 13: v2 revised and expired (failed) in one block
+	func(w *vfWorld) { // 14: rescan onto a different chain (known finding of C01)
+		w.buffer = 18
+		w.push()
+		a := w.addContract(false, w.tipHeight(), vfSmall)
+		b := w.addContract(true, w.tipHeight(), vfSmall)
+		w.push(vfEvent{kind: evForm, c: a}, vfEvent{kind: evForm, c: b, new: 1})
+		w.push()
+		// the replacement chain shares the first block and lacks the formation block
+		other := []*vfBlock{w.chain[0]}
+		for h := uint64(2); h <= 3; h++ {
+			w.nextBid++
+			other = append(other, &vfBlock{height: h, bid: w.nextBid})
+		}
+		w.rescanOnto(other)
+	},
+}
+
+// a v2 contract is revised AND resolved (kind k) in one block: connected, disconnected, crossed
+// again together with the block before, rescanned
+func vfDirectedSameBlock(k int) func(w *vfWorld) {
+	return func(w *vfWorld) {
+		w.buffer = 2
+		w.push()
+		c := w.addContract(true, w.tipHeight(), vfSmall)
+		d := w.addContract(true, w.tipHeight(), vfSmall)
+		w.push(vfEvent{kind: evForm, c: c, new: 0}, vfEvent{kind: evForm, c: d, new: 1})
+		w.revise(c, vfSmall)
+		w.revise(c, vfSmall)
+		w.push(vfEvent{kind: evRev, c: c, old: 0, new: c.rev}, vfEvent{kind: k, c: c})
+		w.pop(1)
+		b1 := w.block(vfEvent{kind: evRev, c: d, old: 1, new: 4})
+		b2 := &vfBlock{height: b1.height + 1, bid: b1.bid + 1, events: []vfEvent{{kind: k, c: c}, {kind: evRev, c: c, old: 0, new: c.rev}, {kind: evRev, c: d, old: 4, new: 6}, {kind: evMissOK, c: d}}}
+		w.nextBid++
+		for i := 0; i < 2; i++ {
+			if w.update(nil, []*vfBlock{b1, b2}, true) {
+				w.commit(nil, []*vfBlock{b1, b2})
+			}
+			if w.update([]*vfBlock{b2, b1}, nil, true) {
+				w.commit([]*vfBlock{b2, b1}, nil)
+			}
+		}
+		if w.update(nil, []*vfBlock{b1, b2}, true) {
+			w.commit(nil, []*vfBlock{b1, b2})
+		}
+		w.rescan()
+		w.push()
+		w.pop(2)
+	}
 }
 
 // ---------------------------------------------------------------- entry point
